@@ -3,11 +3,13 @@
 install() must run in a (child) process BEFORE octave_mcp is imported.  It wraps
   pathlib.Path.exists / is_symlink / mkdir / read_text(via io.open), os.path.exists, os.stat, os.lstat,
   tempfile.mkstemp, os.fchmod, os.fdopen (proxy file: write/flush/close), os.fsync, builtins.open + io.open
-  (proxy: read/close), os.unlink, os.replace, and flags os.rename/os.remove/os.truncate/shutil.move and
-  open(.., 'w') on sandbox paths as UNEXPECTED.
+  (proxy: read/close), os.unlink, os.replace, and flags os.rename/os.remove/os.truncate/shutil.move,
+  open(.., 'w') and os.open(.., O_WRONLY|O_CREAT|..) on sandbox paths as UNEXPECTED (their write/flush/close remain
+  op instances, so a kill inside a direct overwrite is observable as a torn file).
 Every call that concerns a path inside the configured sandbox root (or a tracked fd) is one OP INSTANCE:
 it is appended to the trace log (flushed with os.write, survives os._exit), then
-  * a scheduler (C17) may block the calling thread until it is released,
+  * a scheduler (C17: Scheduler for writer threads, PipeScheduler for writer processes) may block the caller until
+    the driver releases exactly this one file operation,
   * plan.crash_at == k  -> partial effect (a prefix of the data for write) then os._exit(77),
   * k in plan.fail_at    -> partial effect then raise OSError(errno).
 Op names: lstat exists:<w> ospath_exists:<w> is_symlink:<w> stat:<w> mkdir mkstemp fchmod fdopen write flush
@@ -39,6 +41,7 @@ class Plan:
         self.trace = []
         self.temps = set()
         self.fd_path = {}
+        self.raw_fds = set()
         self.lock = threading.Lock()
         self.tls = threading.local()
         self.enabled = True
@@ -137,6 +140,9 @@ class WriteProxy:
 
     def fileno(self):
         return self._f.fileno()
+
+    def __getattr__(self, n):
+        return getattr(self._f, n)
 
     def close(self):
         _op("close")
@@ -263,8 +269,12 @@ def install():
             role = _role(STATE, file)
             if role is not None:
                 if any(c in mode for c in "wax+"):
+                    # not part of the modelled protocol: recorded, and its write/flush/close stay kill / failure
+                    # points (a kill after the truncating open, or inside write, shows the torn file)
                     _op(f"UNEXPECTED:open({mode}):{role}")
-                    return r_open(file, mode, *a, **kw)
+                    with _Nested():
+                        f = r_open(file, mode, *a, **kw)
+                    return WriteProxy(f, os.fspath(file))
                 _op(f"open_read:{role}")
                 with _Nested():
                     f = r_open(file, mode, *a, **kw)
@@ -282,6 +292,29 @@ def install():
             _op("replace" if ok else f"UNEXPECTED:replace:{_role(STATE, src)}->{_role(STATE, dst)}")
         return r_replace(src, dst, *a, **kw)
 
+    r_osopen, r_oswrite, r_osclose = os.open, os.write, os.close
+    WR = os.O_WRONLY | os.O_RDWR | os.O_TRUNC | os.O_CREAT | os.O_APPEND
+
+    def w_osopen(path, flags, *a, **kw):
+        if _active() and (flags & WR) and not isinstance(path, int) and _inside(STATE, path):
+            _op(f"UNEXPECTED:os.open:{_role(STATE, path)}")
+            fd = r_osopen(path, flags, *a, **kw)
+            STATE.raw_fds.add(fd)
+            return fd
+        return r_osopen(path, flags, *a, **kw)
+
+    def w_oswrite(fd, data):
+        if STATE is not None and fd in STATE.raw_fds and _active():
+            _op("write", lambda: r_oswrite(fd, data[: max(1, len(data) // 2)]))
+        return r_oswrite(fd, data)
+
+    def w_osclose(fd):
+        if STATE is not None and fd in STATE.raw_fds:
+            STATE.raw_fds.discard(fd)
+            if _active():
+                _op("close")
+        return r_osclose(fd)
+
     def unexpected(name, real):
         def w(*a, **kw):
             if _active() and any(isinstance(x, (str, os.PathLike)) and _inside(STATE, x) for x in a):
@@ -298,6 +331,7 @@ def install():
     builtins.open = w_open
     io.open = w_open
     os.unlink, os.replace = w_unlink, w_replace
+    os.open, os.write, os.close = w_osopen, w_oswrite, w_osclose
     os.rename = unexpected("rename", os.rename)
     os.remove = unexpected("remove", os.remove)
     os.truncate = unexpected("truncate", os.truncate)
@@ -318,6 +352,7 @@ class Scheduler:
         self.done = {n: False for n in names}
         self.free = set()          # threads released to run to completion
         self.ops = {n: [] for n in names}
+        self.pending = {n: None for n in names}   # the op a parked thread is about to perform
 
     def before_op(self, opname):
         who = getattr(STATE.tls, "who", None)
@@ -325,6 +360,7 @@ class Scheduler:
             return
         with self.cv:
             self.waiting[who] = True
+            self.pending[who] = opname
             self.cv.notify_all()
             while self.grants[who] <= 0 and who not in self.free:
                 self.cv.wait()
@@ -365,3 +401,25 @@ class Scheduler:
         with self.cv:
             self.free.add(who)
             self.cv.notify_all()
+
+    def peek(self, who):
+        """Name of the file operation `who` is parked before, or None when it has finished."""
+        if not self.wait_parked(who):
+            return None
+        with self.cv:
+            return self.pending[who]
+
+
+class PipeScheduler:
+    """Writer-side half of the same cooperative scheduling for a writer that is a separate PROCESS: before each
+    file operation the writer reports the op name on `wfd` and blocks until the driver sends one byte on `rfd`."""
+
+    def __init__(self, who, rfd, wfd):
+        self.who, self.rfd, self.wfd = who, rfd, wfd
+
+    def before_op(self, opname):
+        if getattr(STATE.tls, "who", None) != self.who:
+            return
+        _real["os.write"](self.wfd, (opname + "\n").encode())
+        if not os.read(self.rfd, 1):
+            _real["os._exit"](3)
